@@ -841,6 +841,17 @@ func (it *Interp) execBlock(fn *ssa.Function, sum *Summary, w work, panicCtx boo
 					}
 				}
 			}
+			ik := it.eval(st, ins.Index)
+			if _, isOther := ik.(Other); isOther {
+				// different from every literal, hence from every key of a constant table
+				ik = Const{V: constant.MakeString("\x00<no such key>")}
+			}
+			if ck, ok := ik.(Const); ok {
+				if v, ok := staticLookup(ins, ck); ok {
+					setReg(st, ins, v)
+					continue
+				}
+			}
 			setReg(st, ins, Top{})
 		case *ssa.Convert:
 			x := it.eval(st, ins.X)
